@@ -56,14 +56,36 @@ structure Req where
 def delimited10 (m : Method) (f : Framing) : Bool :=
   f != .none || m == .get || m == .head
 
+/-! #### `_connection_options(headers)`: the comma-separated, case-insensitive option list -/
+
+def isOws (c : Nat) : Bool := c == 32 || c == 9
+
+/-- `s.split(",")` -/
+def splitComma : Str → List Str
+  | [] => [[]]
+  | c :: cs =>
+    if c = 44 then [] :: splitComma cs
+    else match splitComma cs with
+      | [] => [[c]]
+      | w :: ws => (c :: w) :: ws
+
+/-- `s.strip(" \t")` -/
+def strip (s : Str) : Str := ((s.dropWhile isOws).reverse.dropWhile isOws).reverse
+
+/-- `[o.strip(" \t").lower() for o in value.split(",") if o.strip(" \t")]` -/
+def options (v : Str) : List Str := ((splitComma v).map strip).filter (fun o => !o.isEmpty) |>.map lower
+
+def hasOption (tok : Str) (conn : Option Str) : Bool :=
+  match conn with
+  | none => false
+  | some v => (options v).contains tok
+
 /-- `HTTP1Connection._can_keep_alive` (server side) -/
 def canKeepAlive (nka : Bool) (r : Req) : Bool :=
   if nka then false
-  else
-    let ch := r.conn.map lower
-    if r.ver11 then ch != some sClose
-    else if delimited10 r.method r.framing then ch == some sKeepAlive
-    else false
+  else if r.ver11 then !hasOption sClose r.conn
+  else if delimited10 r.method r.framing then hasOption sKeepAlive r.conn
+  else false
 
 def respHasCL : Resp → Bool | .cl => true | _ => false
 def respNoBodyStatus : Resp → Bool | .s204 | .s304 => true | _ => false
@@ -72,11 +94,18 @@ def respNoBodyStatus : Resp → Bool | .s204 | .s304 => true | _ => false
 def chunking (r : Req) (resp : Resp) : Bool :=
   r.ver11 && r.method != .head && !respNoBodyStatus resp && !respHasCL resp
 
-/-- the two `Connection` rules of `write_headers`; `disc` = `_disconnect_on_finish` at that moment -/
-def connOut (r : Req) (disc : Bool) : ConnOut :=
-  if !r.ver11 && r.conn.map lower == some sKeepAlive then .keepAlive
-  else if r.ver11 && disc then .close
-  else .absent
+/-- the response body can only be delimited by closing the connection -/
+def undelimited (r : Req) (resp : Resp) : Bool :=
+  !chunking r resp && !respHasCL resp && r.method != .head && !respNoBodyStatus resp
+
+/-- `write_headers`: the `_disconnect_on_finish` update for undelimited bodies and the two `Connection`
+rules; `disc` = `_disconnect_on_finish` before the call.  Returns the new flag and the header written. -/
+def writeHeaders (r : Req) (resp : Resp) (disc : Bool) : Bool × ConnOut :=
+  let disc1 := disc || undelimited r resp
+  (disc1,
+   if r.ver11 && disc1 then .close
+   else if !r.ver11 && hasOption sKeepAlive r.conn && !disc1 then .keepAlive
+   else .absent)
 
 /-- `finish()`: "if not self._read_finished: self._disconnect_on_finish = True" -/
 def discAfterFinish (disc readFinished : Bool) : Bool := disc || !readFinished
@@ -91,8 +120,8 @@ structure Outcome where
 otherwise body read, then the handler responds) → `_finish_request`. -/
 def serve (nka : Bool) (r : Req) (resp : Resp) (early : Bool) : Outcome :=
   let disc0 := !canKeepAlive nka r
-  let out := connOut r disc0                      -- write_headers runs before finish()
-  let disc1 := discAfterFinish disc0 (!early)
-  { conn := out, closes := disc1, chunked := chunking r resp }
+  let (disc1, out) := writeHeaders r resp disc0        -- write_headers runs before finish()
+  let disc2 := discAfterFinish disc1 (!early)
+  { conn := out, closes := disc2, chunked := chunking r resp }
 
 end TornadoModel.C03
